@@ -82,6 +82,12 @@ def cases(tier, seed, info):
                     for clean in (True, False):
                         out.append(dict(mode='json', fault='none', err='', pos='-', entry=entry, clean=clean, hex=False,
                                         pel=p, data=data, hidden=encode.encode(hidden), namelen=namelen, place=place))
+        # -f with a RELATIVE name (the run stands in the log's directory) next to -p naming another directory that holds
+        # a file of the same name: the file shown is the file removed
+        for clean in (True, False):
+            for hexm in (False, True):
+                out.append(dict(mode='file', fault='none', err='', pos='-', entry='main', clean=clean, hex=hexm, pel=p,
+                                data=data, hidden=encode.encode(hidden), relname=True))
         # what an earlier, interrupted run left under the result's name: nothing of use, but newer than the log
         for leftover in ('empty', 'half', 'notjson', 'other'):
             for entry in ('func', 'main'):
@@ -564,6 +570,10 @@ def _sink_case(case):
                  input_unchanged=bool(unchanged), out_complete=False, uncaught='', exit=rc)]
 
 
+def rng_order(a, b, k):
+    return a + b if k % 2 else b + a
+
+
 def run_case(case):
     if case.get('kind') == 'sink':
         return _sink_case(case)
@@ -695,6 +705,14 @@ def run_case(case):
         else:
             if mode == 'json':
                 argv = ['-p', os.path.join(work, 'in'), '-j'] + (['-o', out_dir] if case.get('place') != 'same' else [])
+            elif case.get('relname'):
+                other = os.path.join(work, 'other')
+                os.makedirs(other, exist_ok=True)
+                twin = bytearray(data)
+                twin[44:48] = b'\x5F\x00\x0B\x0B'                      # another log (another entry id) under the same name
+                seams.write_file(os.path.join(other, name), bytes(twin))
+                os.chdir(os.path.join(work, 'in'))
+                argv = rng_order(['-p', other], ['-f', name] + (['-x'] if case['hex'] else []), case['pel'])
             else:
                 argv = ['-f', in_path] + (['-x'] if case['hex'] else [])
             if case['clean']:
@@ -727,6 +745,7 @@ def run_case(case):
             complete = text == exp
         else:
             complete = text == expected_json + '\n'
+    os.chdir(base)
     shutil.rmtree(work, ignore_errors=True)
     ok_shape = all(isinstance(e, str) for e in log)
     return [dict(kind='run', shape_ok=ok_shape, mode=mode, entry=case['entry'], fault=fault, err=case.get('err', ''), pos=case['pos'],
